@@ -59,9 +59,17 @@ def main():
     try:
         with Scratch(prop) as s:
             touched = inject(s, log)
-            results += do_kani(s, prop, [o for o in obs if o["backend"] == "kani"], args.tier, jobs)
-            results += do_verus(s, prop, [o for o in obs if o["backend"] == "verus"], args.tier)
-            results += do_native(s, prop, [o for o in obs if o["backend"] == "native"], args.tier, jobs)
+            for fn, be in ((do_kani, "kani"), (do_verus, "verus"), (do_native, "native")):
+                sel = [o for o in obs if o["backend"] == be]
+                try:
+                    results += fn(s, prop, sel, args.tier, jobs) if be != "verus" else fn(s, prop, sel, args.tier)
+                except Undecided as e:
+                    log(f"{be} back end undecided: {str(e)[:400]}")
+                    for o in sel:
+                        results.append({"obligation": o["name"], "clause": o.get("clause", o["name"]), "backend": be,
+                                        "kind": "bounded" if (be == "native" or o.get("bounded")) else "deductive",
+                                        "bound": o.get("bounded") or o.get("scope"), "function": o.get("fn"),
+                                        "status": "undecided", "detail": str(e)[:400]})
     except Undecided as e:
         fatal = str(e)
         log("UNDECIDED: " + fatal)
@@ -321,4 +329,13 @@ def replay(prop, path):
 
 
 if __name__ == "__main__":
-    sys.exit(main())
+    try:
+        rc = main()
+    except SystemExit:
+        raise
+    except BaseException as e:  # an internal error of the machinery is never a verdict about the property
+        import traceback
+        traceback.print_exc()
+        print(f"UNDECIDED internal error of the checking machinery: {type(e).__name__}: {e}")
+        rc = EXIT_UNDECIDED
+    sys.exit(rc)
